@@ -180,7 +180,7 @@ def run_check(pid, tier, seed):
             if key in seen:
                 continue
             seen.add(key)
-            if per_label.get(v['label'], 0) >= 6:
+            if per_label.get(v['label'], 0) >= 3:
                 continue
             per_label[v['label']] = per_label.get(v['label'], 0) + 1
             h = hashlib.sha1((ob.name + wj).encode()).hexdigest()[:12]
@@ -212,7 +212,11 @@ def run_check(pid, tier, seed):
 
     for sig, (kf, path, r) in sorted(known_hits.items()):
         log('KNOWN-FINDING: property=%s %s [%s] e.g. replay=%s' % (pid, kf.get('where', ''), sig, path))
-    for obn, label, path, r in violations:
+    for i, (obn, label, path, r) in enumerate(violations):
+        if i >= 12:
+            log('  ... and %d more replay-confirmed counterexamples under %s' % (
+                len(violations) - 12, os.path.join(VERIF, 'replays', pid)))
+            break
         log('VIOLATION property=%s replay=%s' % (pid, path))
         log('    obligation=%s label=%s signature=%s detail=%s' % (obn, label, r.get('signature'),
                                                                  str(r.get('detail'))[:400]))
